@@ -242,9 +242,9 @@ M_IND = [mut("rationalLP_shallow_copy", r"_rationalLP = nullptr;\s*spx_alloc\(_r
          mut("basis_solver_of_source", "_solver.setBasisSolver(&_slufactor);", "_solver.setBasisSolver((SLUFactor<R>*)&rhs._slufactor);"),
          mut("outstream_of_source", "_solver.setOutstream(spxout);", "_solver.setOutstream(rhs.spxout);"),
          mut("scaler_pointer_copied", "setIntParam(SoPlexBase<R>::SCALER, intParam(SoPlexBase<R>::SCALER), true);", "_scaler = rhs._scaler;"),
-         mut("scaler_tolerances_not_set", "_scalerGeo8.setTolerances(_tolerances);", ";"),
+         mut("simplifier_outstream_not_set", "_simplifierMainSM.setOutstream(spxout);", ";"),
          mut("old_rationalLP_not_freed", "spx_free(_rationalLP);", ";")]
-M_FRAME = [mut("writes_source_flag", "_hasBasis = rhs._hasBasis;", "_hasBasis = rhs._hasBasis; ((SoPlexBase<R>&)rhs)._hasBasis = false;"),
+M_FRAME = [mut("writes_source_flag", "_hasBasis = rhs._hasBasis;", "_hasBasis = rhs._hasBasis; *(bool*)&rhs._hasBasis = false;"),
            mut("self_test_dropped", "if(this != &rhs)", "if(true)")]
 insts = []
 def inst(name, function, defines, mutants, tier="quick", minobl=100):
